@@ -33,6 +33,13 @@ def execute(spec):
     return out
 
 
+def known_dead(spec, res):
+    """a run that dies of the known finding C10-LIMITWEIGHTS-NAN (ffn.limit_weights returns NaN behind
+    WeighMeanVar): C10 reports it; the other family checks leave it alone"""
+    st = spec.get("stack") or {}
+    return res.get("status") == "crash" and st.get("weigh") == "meanvar" and st.get("mod") == "limitweights" and str(res.get("err", "")).startswith("ValueError")
+
+
 def sizing_defect(spec, res):
     """True if the run died in a sizing-search guard on a request that the brute-force
     reference can satisfy (the known C05 defect seen from a run)."""
@@ -169,6 +176,10 @@ def run_ledger_case(item):
     if res["status"] == "guard":
         return ("refused", [], None)
     if res["status"] == "crash":
+        st = spec.get("stack") or {}
+        if st.get("weigh") == "meanvar" and st.get("mod") == "limitweights" and res["err"].startswith("ValueError"):
+            # ffn.limit_weights returns NaN behind WeighMeanVar: the known finding C10-LIMITWEIGHTS-NAN, reported by C10
+            return ("refused", [], None)
         return ("crash", [{"rule": "crash", "observed": res["err"], "expected": "a well-formed run completes"}], None)
     viols = check_ledgers(prop, spec, res)
     ntr = len(res["trades"])
@@ -191,9 +202,18 @@ def run_scaled_case(item):
         if res["status"] == "guard":
             return ("refused", [], None)
         if res["status"] == "crash":
+            st0 = spec.get("stack") or {}
+            if st0.get("weigh") == "meanvar" and st0.get("mod") == "limitweights" and res["err"].startswith("ValueError"):
+                return ("refused", [], None)  # (the known finding C10-LIMITWEIGHTS-NAN)
             return ("crash", [{"rule": "crash", "observed": res["err"]}], None)
         root = R.node_path(res["b"].strategy)
         series.append(res["hist"][root]["prices"][1])
+        # the recurrence divides by (previous value + flows): a run that is drained to (nearly) nothing or
+        # below makes that base tiny and the index ill-conditioned - no statement about 1e-9 there
+        vv, ff = res["hist"][root]["values"][1], res["hist"][root]["flows"][1]
+        cap_k = abs(float(sp["capital"]))
+        if any(abs(vv[i - 1] + ff[i]) < 1e-2 * cap_k for i in range(2, len(vv))) or any(x < 0 for x in vv):
+            return ("refused", [], None)
     viols = []
     base = series[1]
     for k, s in zip((0.001, 64.0), (series[0], series[2])):
